@@ -573,8 +573,8 @@ def _detect_with_segment_refine(
 
         # Iterate subintervals
         for m in range(r + 1):
-            s_lo = m * step
-            s_hi = (m + 1) * step
+            s_lo = m / (r + 1)
+            s_hi = (m + 1) / (r + 1)
             if s_hi > 1.0 + 1e-15:
                 break
             if accept_left and m == 0:
